@@ -46,7 +46,10 @@ RULE = ('pairs (data set, transformed data set) for each estimator class of the 
         'quantiles of the fitted probabilities, lo != 1-hi) on every model that takes `bound` (IPTW treatment/missing, '
         'AIPTW exposure/missing, TMLE exposure/missing/outcome, StochasticTMLE exposure, GEstimationSNM missing, IPSW '
         'sampling/treatment, AIPSW treatment) under every transformation (mirrored interval where only Pr(A=1) is '
-        'truncated and A is recoded, or the unit-scale outcome is mirrored by c<0). '
+        'truncated and A is recoded, or the unit-scale outcome is mirrored by c<0); '
+        'cells with rows whose exposure was not recorded while outcome and covariates are (6-10% of the rows; 1-A leaves '
+        'them missing): dropped by the point classes, in neither arm of IPSW / AIPSW / GTransportFormula (IPSW also '
+        'without treatment_model(), the documented use for a trial). '
         'distinct = (data hash, class, options, transformation); non-trivial = the transformation really changes what '
         'the class receives (row order / index labels / codes / values differ from the original frame); X, the '
         'categorical covariates, treatment and outcome are associated by construction')
@@ -637,23 +640,33 @@ def run_ipsw(df, spec, opt):
     o = Obs()
     e = IPSW(df, exposure='A', outcome='Y', selection='S', generalize=opt['gen'], **wkw(opt))
     e.sampling_model(COVF, stabilized=opt['stab'], print_results=False, **bnd(spec, opt, 'samp'))
-    e.treatment_model(COVF, stabilized=opt['stab'], print_results=False,
-                      **bnd(spec, opt, 'treat', mirror=spec.get('flipped')))
+    if opt.get('treat', True):      # treat=False: the documented use for a randomized trial (sampling weights only)
+        e.treatment_model(COVF, stabilized=opt['stab'], print_results=False,
+                          **bnd(spec, opt, 'treat', mirror=spec.get('flipped')))
     e.fit()
     o.put('RD', 'diff', e.risk_difference)
     o.put('RR', 'ratio', e.risk_ratio)
     o.put('ipsw', 'rows', sample_rows(df, e.ipsw, df['S'] == 1))
-    o.put('iptw', 'rows', sample_rows(df, e.iptw, df['S'] == 1))
+    if e.iptw is not None:
+        # (a study-sample row whose exposure was not recorded is in neither arm: its treatment weight is not a result,
+        # and no relation is stated for it -- masked)
+        tw = sample_rows(df, e.iptw, df['S'] == 1)
+        o.put('iptw', 'rows', np.where(df['A'].isna().values, np.nan, tw))
     o.est = e
     return o
 
 
 def k_ipsw(drv, o, base, rel, spec, opt):
     e = o.est
-    smp = e.sample
+    # a study-sample row without a recorded exposure belongs to neither arm; the model's rows have an arm, and its
+    # arm means read no other row, so such rows are left out of what the model is given
+    has_a = e.sample[e.exposure].notna().values
+    smp = e.sample[has_a]
+    tw = np.ones(len(e.sample)) if e.iptw is None else np.asarray(e.iptw, dtype=float)
     rep, _ = drv.ask('ipsw', c='f', gen=int(opt['gen']), stab=int(opt['stab']),
-                     ns=enc_list(np.broadcast_to(np.asarray(smp['__numer__'], dtype=float), (len(smp),)), fx),
-                     ds=enc_list(smp['__denom__'], fx), tw=enc_list(e.iptw, fx),
+                     ns=enc_list(np.broadcast_to(np.asarray(e.sample['__numer__'], dtype=float),
+                                                 (len(e.sample),))[has_a], fx),
+                     ds=enc_list(smp['__denom__'], fx), tw=enc_list(tw[has_a], fx),
                      **rows_kw(smp, obs=[1] * len(smp)))
     ok = rep['status'] == 'ok'
     if ok:
@@ -709,6 +722,8 @@ def run_aipsw(df, spec, opt):
 def k_aipsw(drv, o, base, rel, spec, opt):
     e = o.est
     df = e.df
+    if (df['A'].isna() & (df['S'] == 1)).any():
+        return None, None      # rows in neither arm (exposure not recorded): the model's rows have an arm; gate D only
     tw = np.ones(len(df)) if e.iptw is None else np.where(np.isnan(e.iptw), 0.0, e.iptw)
     rep, _ = drv.ask('aipsw', c='f', gen=int(opt['gen']), stab=int(opt['stab']), ns=enc_list(e.df['__numer__'], fx),
                      ds=enc_list(e.df['__denom__'], fx), tw=enc_list(tw, fx), q1=enc_list(e._YA1, fx),
@@ -930,10 +945,17 @@ def make(group, seed, **kw):
         add_w(rng, df, kw)
         if kw.get('xmiss'):                     # incomplete covariate rows (dropped by check_input_data)
             df.loc[rng.uniform(size=len(df)) < 0.06, 'X'] = np.nan
+        if kw.get('amiss'):                     # rows whose exposure was not recorded (outcome and covariates are)
+            df['A'] = df['A'].astype(float)
+            df.loc[rng.uniform(size=len(df)) < 0.06, 'A'] = np.nan
         spec = {'a': ['A'], 'y': ['Y'], 'x': ['X'], 'cat': covs}
     elif group == 'gen':
         df, covs = gen_data(rng)
         add_w(rng, df, kw)
+        if kw.get('amiss'):                     # study-sample rows whose exposure was not recorded (outcome is): they
+            smp = np.flatnonzero((df['S'] == 1).values)      # belong to neither arm; 1-A leaves them as they are
+            lost = rng.choice(smp, size=max(4, len(smp) // 10), replace=False)
+            df.loc[df.index[lost], 'A'] = np.nan
         spec = {'a': ['A'], 'y': ['Y'], 'x': ['X'], 'cat': covs}
     elif group == 'wide':
         K = kw['K']
@@ -1275,6 +1297,19 @@ def cells(tier):
         for nlev in (2, 3):
             out.append(('measure', dict(cls=cls, nlev=nlev, ref=0, alpha=0.05)))
         out.append(('measure', dict(cls=cls, nlev=4, ref=2, alpha=0.2)))
+    # (round 4; appended, so that the data seeds of the cells above stay what they were)
+    # rows whose exposure was not recorded while everything else is (dropped by check_input_data in the point classes;
+    # in neither arm of the generalize classes, where no treatment_model() is the documented use for a trial)
+    out.append(('IPTW', dict(ytype='normal', stab=True, tgt='exposed', amiss=True)))
+    out.append(('TimeFixedGFormula', dict(ytype='binary', tgt='unexposed', amiss=True)))
+    out.append(('AIPTW', dict(ytype='binary', amiss=True, miss=True, missing='mar')))
+    out.append(('TMLE', dict(ytype='normal', amiss=True)))
+    for g in (True, False):
+        out.append(('IPSW', dict(gen=g, stab=g, treat=False)))
+        out.append(('IPSW', dict(gen=g, stab=not g, treat=False, amiss=True)))
+        out.append(('IPSW', dict(gen=g, stab=g, amiss=True)))
+        out.append(('AIPSW', dict(gen=g, stab=not g, treat=g, amiss=True)))
+        out.append(('GTransportFormula', dict(gen=g, amiss=True)))
     return out
 
 
